@@ -413,7 +413,11 @@ class Interp:
             k = self.eval(e.slice, env)
             if isinstance(base, (dict, defaultdict)):
                 return base[k]
-            if isinstance(base, list) and isinstance(k, int):
+            if isinstance(base, (list, tuple)) and isinstance(k, int) and not isinstance(k, bool):
+                if not -len(base) <= k < len(base):
+                    raise ModelRaise("IndexError")
+                return base[k]
+            if isinstance(base, (list, tuple)) and isinstance(k, slice) and all(x is None or (isinstance(x, int) and not isinstance(x, bool)) for x in (k.start, k.stop, k.step)):
                 return base[k]
             if isinstance(base, FixedArray) and isinstance(k, (int, slice)):
                 return base.items[k]
